@@ -541,4 +541,54 @@ MUTANTS = [
 CONTROLS = [
     ("C05-uniform-from-other-half-open-interval", "liesel/goose/mh.py",
      "    do_accept = jax.random.uniform(prng_key) < acceptance_prob\n", "    do_accept = (1.0 - jax.random.uniform(prng_key)) <= acceptance_prob\n"),
+    ("C05-minimum-instead-of-clip", "liesel/goose/mh.py",
+     "    acceptance_prob = jnp.clip(jnp.exp(log_acc_prob), max=1.0)\n", "    acceptance_prob = jnp.minimum(jnp.exp(log_acc_prob), 1.0)\n"),
+    ("C10-kernel-keys-from-a-longer-split", "liesel/goose/kernel_sequence.py",
+     "        keys = jax.random.split(prng_key, len(self._kernels))\n        infos: TransitionInfos = {}\n",
+     "        keys = jax.random.split(prng_key, len(self._kernels) + 1)[1:]\n        infos: TransitionInfos = {}\n"),
+    ("C04-kernel-keys-from-a-longer-split", "liesel/goose/kernel_sequence.py",
+     "        keys = jax.random.split(prng_key, len(self._kernels))\n        infos: TransitionInfos = {}\n",
+     "        keys = jax.random.split(prng_key, len(self._kernels) + 1)[1:]\n        infos: TransitionInfos = {}\n"),
+    ("C02-totals-summed-in-reverse-order", "liesel/model/model.py",
+     '    reduced = (arg.sum() if hasattr(arg, "sum") else arg for arg in args)\n    return sum(reduced)\n',
+     '    reduced = [arg.sum() if hasattr(arg, "sum") else arg for arg in args]\n    return sum(reversed(reduced))\n'),
+    ("C01-totals-summed-in-reverse-order", "liesel/model/model.py",
+     '    reduced = (arg.sum() if hasattr(arg, "sum") else arg for arg in args)\n    return sum(reduced)\n',
+     '    reduced = [arg.sum() if hasattr(arg, "sum") else arg for arg in args]\n    return sum(reversed(reduced))\n'),
+    ("C03-interface-copy-updates-once-per-call", "liesel/goose/interface.py",
+     "    def __init__(self, model: \"Model\"):\n        self._model = model._copy_computational_model()\n",
+     "    def __init__(self, model: \"Model\"):\n        self._model = model._copy_computational_model()\n        self._model.auto_update = False\n"),
+    ("C08-thinning-index-by-modulo-of-position", "liesel/goose/chain.py",
+     "            idx = np.arange(size)[(self._states_counter + np.arange(size)) % th == 0]\n",
+     "            idx = np.array(\n                [i for i in range(size) if (self._states_counter + i) % th == 0], dtype=int\n            )\n"),
+    ("C11-da-step-reordered-arithmetic", "liesel/goose/da.py",
+     "    log_step_size = ks.mu - (ks.error_sum * jnp.sqrt(t)) / (gamma * (t0 + t))\n",
+     "    log_step_size = ks.mu - (jnp.sqrt(t) / gamma) * (ks.error_sum / (t0 + t))\n"),
+    ("C16-stan-epochs-for-loop", "liesel/goose/warmup.py",
+     "    while 3 * this_time <= time_left:\n",
+     "    while time_left - this_time >= 2 * this_time:\n"),
+    ("C07-end-warmup-flag-checked-first", "liesel/goose/engine.py",
+     """        if (
+            not self._warmup_has_ended
+            and self.current_epoch.config.type == EpochType.POSTERIOR
+        ):
+            self._end_warmup()""",
+     """        if self.current_epoch.config.type == EpochType.POSTERIOR:
+            if not self._warmup_has_ended:
+                self._end_warmup()"""),
+    ("C15-outputs-collected-with-a-dict", "liesel/model/nodes.py",
+     "        self._outputs = _unique_tuple(self._outputs, [output])\n",
+     "        self._outputs = tuple(dict.fromkeys((*self._outputs, output)))\n"),
+    ("C17-inputs-updated-in-one-call-per-dist", "liesel/model/model.py",
+     "                if input_names:\n                    self.update(*input_names)\n",
+     "                for input_name in input_names:\n                    self.update(input_name)\n"),
+    ("C12-history-matrix-by-concatenating-sorted-leaves", "liesel/goose/mm.py",
+     "    return jax.vmap(_ravel_position)(history)\n",
+     "    return jnp.concatenate(\n        [history[k].reshape(history[k].shape[0], -1) for k in sorted(history)], axis=1\n    )\n"),
+    ("C19-error-log-mask-via-max", "liesel/goose/engine.py",
+     "            mask = np.any(tis[ker_name].error_code != 0, axis=0)\n",
+     "            mask = np.max(np.abs(np.asarray(tis[ker_name].error_code)), axis=0) > 0\n"),
+    ("C20-stop-early-with-explicit-window", "liesel/goose/optim.py",
+     "        diff = oldest_loss_in_recent - best_loss_in_recent\n        abs_improvement_is_neglectable = diff <= self.atol\n",
+     "        diff = recent_history[0] - jnp.min(recent_history)\n        abs_improvement_is_neglectable = ~(diff > self.atol) & ~jnp.isnan(diff)\n"),
 ]
